@@ -544,6 +544,11 @@ def path_value(path, ev, env0, target, upto=None):
                 k = norm_nc(n.target)
                 cur = sym.get(k, clone(n.target))
                 put(n.target, ast.BinOp(left=clone(cur), op=n.op, right=sub(n.value)))
+    if target == "<return-expr>":
+        last = path.events[-1] if path.events else None
+        if path.term != "return" or last is None or not isinstance(last.node, ast.Return) or last.node.value is None:
+            return "absent", None
+        return "expr", sub(last.node.value)
     if target == "<return>":
         last = path.events[-1] if path.events else None
         if path.term != "return" or last is None or not isinstance(last.node, ast.Return):
@@ -564,6 +569,12 @@ def path_value(path, ev, env0, target, upto=None):
         return "unknown", str(ex)
     except (TypeError, ZeroDivisionError, ValueError) as ex:
         return "unknown", type(ex).__name__
+
+
+def path_return_expr(path, ev, env0):
+    """the expression returned at the end of the path with the locals assigned on the path substituted (not evaluated);
+    -> ('infeasible'|'absent'|'expr', ast or None)"""
+    return path_value(path, ev, env0, "<return-expr>")
 
 
 def path_return_value(path, ev, env0):
